@@ -19,6 +19,7 @@ func init() { register("C18", runC18) }
 func runC18(c *mon.Ctx) {
 	c.Cases(func(i int, r *mon.Rand) {
 		c18Case(c, r)
+		c18Scope(c, r.Fork(7))
 		if i%4 == 0 || c.Race {
 			c18Concurrent(c, r.Fork(9))
 		}
@@ -347,4 +348,91 @@ func c18Concurrent(c *mon.Ctx, r *mon.Rand) {
 		}
 	}
 	c.Distinct(mon.Hash64("conc", fmt.Sprint(desc), fmt.Sprint(r.U64())))
+}
+
+// c18Scope: the reporter where applications put it - under a tally scope. A
+// histogram that only fills a few of its buckets per interval (the usual
+// case) must produce, per pass, one increment per non-empty bucket on the stat
+// named after that bucket's own bounds, whatever the other buckets received.
+func c18Scope(c *mon.Ctx, r *mon.Rand) {
+	prec := uint(r.Range(0, 9))
+	effPrec := prec
+	if effPrec == 0 {
+		effPrec = 6
+	}
+	st := &recStatter{}
+	rep := tstatsd.NewReporter(st, tstatsd.Options{HistogramBucketNamePrecision: prec})
+	prefix := r.Pick("", "svc", "a.b")
+	root, _ := vNewRoot(tally.ScopeOptions{Prefix: prefix, Reporter: rep, OmitCardinalityMetrics: true}, 0, uint(r.Range(0, 2)))
+	sc := root
+	full := prefix
+	if r.Bool() {
+		sc = root.SubScope("sub")
+		full = mon.RefName(prefix, ".", "sub")
+	}
+	isDur := r.Bool()
+	var vspec []float64
+	var dspec []time.Duration
+	if isDur {
+		dspec = r.DurationSpec(16)
+	} else {
+		vspec = r.ValueSpec(16)
+	}
+	var ops []string
+	desc := func() interface{} {
+		return map[string]interface{}{"mode": "scope", "prefix": full, "precision": prec, "value_spec": vspec, "duration_spec": fmt.Sprint(dspec), "ops": ops}
+	}
+	c.Eval(1)
+	name := mon.RefName(full, ".", "h")
+	c.Guard("panic-statsd-scope", desc, func() {
+		var h tally.Histogram
+		if isDur {
+			h = sc.Histogram("h", tally.DurationBuckets(dspec))
+		} else {
+			h = sc.Histogram("h", tally.ValueBuckets(vspec))
+		}
+		for pass := 0; pass < r.Range(1, 5); pass++ {
+			want := map[string]int64{}
+			for k := 0; k < r.Range(1, 4); k++ {
+				if isDur {
+					xs := r.SamplesForDurations(dspec, 1)
+					x := xs[r.Intn(len(xs))]
+					h.RecordDuration(x)
+					p := mon.RefPairsD(dspec)[mon.RefPairIndexD(dspec, x)]
+					want[fmt.Sprintf("%s.%s-%s", name, refDurBound(p.Lo), refDurBound(p.Hi))]++
+					ops = append(ops, fmt.Sprintf("RecordDuration(%d)", x))
+				} else {
+					xs := r.SamplesForValues(vspec, 1)
+					x := xs[r.Intn(len(xs))]
+					if math.IsNaN(x) {
+						continue
+					}
+					h.RecordValue(x)
+					p := mon.RefPairsV(vspec)[mon.RefPairIndexV(vspec, x)]
+					want[fmt.Sprintf("%s.%s-%s", name, refValueBound(effPrec, p.Lo), refValueBound(effPrec, p.Hi))]++
+					ops = append(ops, fmt.Sprintf("RecordValue(%v)", x))
+				}
+			}
+			st.mu.Lock()
+			st.calls = nil
+			st.mu.Unlock()
+			tally.VerifReportPass(root)
+			ops = append(ops, "report pass")
+			got := map[string]int64{}
+			st.mu.Lock()
+			for _, cl := range st.calls {
+				if cl.Method != "Inc" {
+					c.Violation("statsd-call-differs", map[string]interface{}{"why": fmt.Sprintf("histogram samples arrived as %s(%q)", cl.Method, cl.Name), "case": desc()})
+				}
+				got[cl.Name] += cl.I
+			}
+			st.mu.Unlock()
+			c.Event("scope-passes-checked", 1)
+			if fmt.Sprint(got) != fmt.Sprint(want) {
+				c.Violation("statsd-call-differs", map[string]interface{}{"why": fmt.Sprintf("pass delivered increments %v, the samples of this interval fall into %v", got, want), "case": desc()})
+				return
+			}
+		}
+	})
+	c.Distinct(mon.Hash64("scope", fmt.Sprint(vspec, dspec, prec, ops)))
 }
